@@ -869,7 +869,7 @@ func (p *Printer) cmdSubst(cs *CmdSubst) {
 	case cs.Backquotes && len(cs.Stmts) == 0 &&
 		len(cs.Last) == 1 && cs.Right.Line() == p.line:
 		p.w.WriteString("`#")
-		p.w.WriteString(cs.Last[0].Text)
+		p.writeLit(cs.Last[0].Text)
 		p.w.WriteString("`")
 	default:
 		p.w.WriteString("$(")
